@@ -31,9 +31,41 @@ def hexChar (n : Nat) : Char :=
 def natToHex16 (n : Nat) : String :=
   String.ofList ((List.range 16).reverse.map fun i => hexChar ((n / 16 ^ i) % 16))
 
-def hexList (s : String) (sep : String := ";") : List Nat := (splitList s sep).map hexToNat
+/-- Parses `;`-separated hex values; `z<count>` stands for `count` zeros (see `showHexList`). -/
+def hexList (s : String) (sep : String := ";") : List Nat :=
+  (splitList s sep).flatMap fun t =>
+    if t.startsWith "z" then List.replicate (nat! (t.drop 1).toString) 0 else [hexToNat t]
 
-def showHexList (l : List Nat) : String := if l.isEmpty then "-" else joinWith ";" (l.map natToHex16)
+/-- Splits off the leading zeros: `(count, rest)`. -/
+def spanZeros : List Nat → Nat × List Nat
+  | 0 :: t => let (k, r) := spanZeros t; (k + 1, r)
+  | l => (0, l)
+
+theorem spanZeros_length_le (l : List Nat) : (spanZeros l).2.length ≤ l.length := by
+  induction l with
+  | nil => simp [spanZeros]
+  | cons h t ih =>
+    cases h with
+    | zero => simp only [spanZeros, List.length_cons]; omega
+    | succ n => simp [spanZeros]
+
+/-- `;`-separated tokens; a run of 16 or more zeros is rendered `z<count>` (as `hex_list` in
+harness/src/svops.rs does), so vectors with hours of empty sections stay printable. -/
+def hexTokens (l : List Nat) : List String :=
+  match h : l with
+  | [] => []
+  | 0 :: _ =>
+    let p := spanZeros l
+    have : p.2.length < l.length := by
+      subst h
+      have := spanZeros_length_le ‹List Nat›
+      simp only [p, spanZeros, List.length_cons] at *
+      omega
+    (if p.1 ≥ 16 then [s!"z{p.1}"] else List.replicate p.1 (natToHex16 0)) ++ hexTokens p.2
+  | (n + 1) :: t => natToHex16 (n + 1) :: hexTokens t
+termination_by l.length
+
+def showHexList (l : List Nat) : String := if l.isEmpty then "-" else joinWith ";" (hexTokens l)
 
 def fOf (b : Nat) : Float := Float.ofBits (UInt64.ofNat b)
 def bitsOf (f : Float) : Nat := f.toBits.toNat
@@ -65,6 +97,18 @@ def parseUpdate (t : String) : Nat × List Nat :=
   | [k, fs] => (nat! k, hexList fs)
   | _ => (0, [])
 
+/-- `n` pushes of `+0.0` onto the plain-`Vec` variant, in one append (see `pushZerosRaw_eq`). -/
+def pushZerosRaw (r : RVec) (n : Nat) : RVec := r ++ List.replicate n 0
+
+/-- The one-append shortcut is exactly `n` calls of `RVec.push · 0`. -/
+theorem pushZerosRaw_eq (r : RVec) (n : Nat) :
+    pushZerosRaw r n = (List.range n).foldl (fun r _ => RVec.push r 0) r := by
+  induction n generalizing r with
+  | zero => simp [pushZerosRaw]
+  | succ n ih =>
+    rw [List.range_succ, List.foldl_append, ← ih]
+    simp [pushZerosRaw, RVec.push, List.replicate_succ', List.append_assoc]
+
 def svStep (sum0 : Nat) (st : V × List String) (t : String) : V × List String :=
   let (v, out) := st
   let tag := t.take 1 |>.toString
@@ -72,6 +116,7 @@ def svStep (sum0 : Nat) (st : V × List String) (t : String) : V × List String 
   match v with
   | .c s =>
     if tag == "P" then (.c (s.push (hexToNat arg)), out)
+    else if tag == "Z" then (.c ((List.range (nat! arg)).foldl (fun s _ => s.push 0) s), out)
     else if tag == "L" then (v, out ++ [s!"L{s.len}"])
     else if tag == "I" then
       (v, out ++ [match s.iterCollect with | some l => "I" ++ showHexList l | none => "I!underflow"])
@@ -89,6 +134,7 @@ def svStep (sum0 : Nat) (st : V × List String) (t : String) : V × List String 
     else (v, out ++ ["?"])
   | .r r =>
     if tag == "P" then (.r (RVec.push r (hexToNat arg)), out)
+    else if tag == "Z" then (.r (pushZerosRaw r (nat! arg)), out)
     else if tag == "L" then (v, out ++ [s!"L{RVec.len r}"])
     else if tag == "I" then (v, out ++ ["I" ++ showHexList (RVec.iterCollect r)])
     else if tag == "E" then (v, out ++ [s!"E{RVec.len r}"])
